@@ -43,6 +43,28 @@ type Case struct {
 	// Shape: set by genSparse (TestSparseProfiles): the profile runs in real time and has tokens that are seconds apart;
 	// every schedule object is wrapped so that "how far ahead was a token when it was handed out" is measured.
 	Shape string `json:"sparse_shape,omitempty"`
+	// Times > 1 (genContended): Profile is a list and the profile that is run is that list written Times times in a
+	// row (`rps: [a, b, a, b, ...]`): see effProfile. Contended names the shape of such a profile of many small parts.
+	Times     int    `json:"profile_times,omitempty"`
+	Contended string `json:"contended_shape,omitempty"`
+	// Yield (TestBoundaryContention): the instances' goroutines give up the processor (runtime.Gosched) at the points of
+	// the composite schedule where no lock is held (hook schedule.VerifYield of the verif build): "upgrade" = between
+	// dropping the read lock and taking the write lock in Next / Left, "all" = also on entry to Next / Left. Every
+	// interleaving this produces is one the Go scheduler may produce by itself; it makes the ones where several
+	// instances are between the two locks at once frequent even on a machine with few free processors.
+	Yield string `json:"yield,omitempty"`
+}
+
+// effProfile is the profile the case runs: c.Profile, or its parts repeated c.Times times as one flat list.
+func effProfile(c Case) sg.Node {
+	if c.Times <= 1 || c.Profile.Kind != "composite" {
+		return c.Profile
+	}
+	n := sg.Node{Kind: "composite", Children: make([]sg.Node, 0, c.Times*len(c.Profile.Children))}
+	for i := 0; i < c.Times; i++ {
+		n.Children = append(n.Children, c.Profile.Children...)
+	}
+	return n
 }
 
 var profOpts = sg.Opts{MaxDepth: 2, MaxChildren: 4, MaxLeafTok: 25, MinDur: time.Millisecond, MaxDur: 8 * time.Millisecond}
@@ -303,15 +325,44 @@ func check(c Case, o *vf.Obs) error {
 
 var decodeMu sync.Mutex
 
-func once(c Case, o *vf.Obs, classify bool) error {
-	_, _, T, err := sg.Chain(sg.Flatten(c.Profile), time.Unix(1, 0))
+// gunSetup: plain slowness of a pool's gun set-up (fake.GunPlan FactoryDelayUs / WarmUpDelayUs): the engine
+// constructs the first gun of a pool and warms it up synchronously before the pool starts anything else.
+type gunSetup struct {
+	Kind string `json:"kind,omitempty"` // "" | factory_first | factory_every | warmup
+	Us   int    `json:"us,omitempty"`
+}
+
+// poolRun: one pool configuration with its recording doubles.
+type poolRun struct {
+	c       Case
+	T       int // tokens of one profile (reference chain)
+	prov    *fake.Provider
+	guns    *fake.GunWorld
+	aggr    *fake.Aggregator
+	wrapMu  sync.Mutex
+	wrapped []*fake.Sched
+	conf    engine.InstancePoolConfig
+}
+
+func newPoolRun(c Case, id string, gs gunSetup) (*poolRun, error) {
+	prof := effProfile(c)
+	_, _, T, err := sg.Chain(sg.Flatten(prof), time.Unix(1, 0))
 	if err != nil {
-		return err
+		return nil, err
 	}
-	prov := fake.NewProvider(fake.ProviderPlan{Total: c.Ammo, Queue: c.Queue, AfterLast: c.AfterLast, AcquireUs: c.AcquireUs})
-	guns := fake.NewGunWorld(fake.GunPlan{ShotUs: c.ShotUs, PanicAtShot: -1, FactoryErrAt: -1, BindErrAt: -1, Closer: true})
-	aggr := fake.NewAggregator(fake.AggPlan{})
-	m := pand.Metrics()
+	p := &poolRun{c: c, T: T}
+	p.prov = fake.NewProvider(fake.ProviderPlan{Total: c.Ammo, Queue: c.Queue, AfterLast: c.AfterLast, AcquireUs: c.AcquireUs})
+	plan := fake.GunPlan{ShotUs: c.ShotUs, PanicAtShot: -1, FactoryErrAt: -1, BindErrAt: -1, Closer: true}
+	switch gs.Kind {
+	case "factory_first": // call 0 is the gun the pool constructs for the warm-up
+		plan.FactoryDelayUs, plan.FactoryDelayAt = gs.Us, 0
+	case "factory_every":
+		plan.FactoryDelayUs, plan.FactoryDelayAt = gs.Us, -1
+	case "warmup":
+		plan.WarmUp, plan.WarmUpDelayUs = true, gs.Us
+	}
+	p.guns = fake.NewGunWorld(plan)
+	p.aggr = fake.NewAggregator(fake.AggPlan{})
 	var factory func() (core.Schedule, error)
 	if c.ViaConfig {
 		var holder struct {
@@ -320,15 +371,13 @@ func once(c Case, o *vf.Obs, classify bool) error {
 		// pandora decodes its config once, on one goroutine, before anything runs (decode hooks are compiled lazily into
 		// package variables on the first call): cases that run concurrently in one process take turns here
 		decodeMu.Lock()
-		err := pand.Decode(map[string]any{"rps": sg.ConfigMap(c.Profile)}, &holder)
+		err := pand.Decode(map[string]any{"rps": sg.ConfigMap(prof)}, &holder)
 		decodeMu.Unlock()
 		if err != nil {
-			return fmt.Errorf("valid schedule config rejected: %v", err)
+			return nil, fmt.Errorf("valid schedule config rejected: %v", err)
 		}
 		factory = holder.F
 	}
-	var wrapMu sync.Mutex
-	var wrapped []*fake.Sched
 	newSched := func() (core.Schedule, error) {
 		var s core.Schedule
 		if factory != nil {
@@ -337,61 +386,60 @@ func once(c Case, o *vf.Obs, classify bool) error {
 				return nil, err
 			}
 		} else {
-			s = sg.Build(c.Profile)
+			s = sg.Build(prof)
 		}
 		s.Start(time.Now().Add(-time.Duration(c.PastMs) * time.Millisecond))
 		if c.Shape != "" {
 			w := fake.WrapSched(s)
-			wrapMu.Lock()
-			wrapped = append(wrapped, w)
-			wrapMu.Unlock()
+			p.wrapMu.Lock()
+			p.wrapped = append(p.wrapped, w)
+			p.wrapMu.Unlock()
 			s = w
 		}
 		return s, nil
 	}
-	conf := engine.Config{Pools: []engine.InstancePoolConfig{{
-		ID: "p", Provider: prov, Aggregator: aggr, NewGun: guns.Factory,
+	p.conf = engine.InstancePoolConfig{
+		ID: id, Provider: p.prov, Aggregator: p.aggr, NewGun: p.guns.Factory,
 		RPSPerInstance: c.PerInstance, NewRPSSchedule: newSched,
 		StartupSchedule: startup(c), DiscardOverflow: c.Discard,
-	}}}
-	eng := engine.New(pand.NopLog(), m, conf)
-	var runErr error
-	ok, stacks := vf.Deadline(60*time.Second, func() { runErr = eng.Run(context.Background()) })
-	if !ok {
-		return fmt.Errorf("Engine.Run did not return within 60s\n%s", stacks)
 	}
-	if runErr != nil {
-		return fmt.Errorf("Engine.Run returned %v for a pool with finite profiles and no failing component", runErr)
-	}
-	eng.Wait()
-	fired := len(guns.Shots)
-	_, discarded := aggr.Counts()
-	started := int(m.InstanceStart.Get())
-	finished := int(m.InstanceFinish.Get())
-	if started != finished {
-		return fmt.Errorf("InstanceStart=%d but InstanceFinish=%d after the run", started, finished)
-	}
-	tokens := T
+	return p, nil
+}
+
+// poolResult: what the history of one pool's doubles adds up to.
+type poolResult struct {
+	fired, discarded, tokens, want, acquired, unfired int
+}
+
+// judgeCounts: fired + discarded = min(tokens, ammo) for a pool that ended normally with `started` instances.
+func (p *poolRun) judgeCounts(started int) (poolResult, error) {
+	c := p.c
+	var r poolResult
+	r.fired = len(p.guns.Shots)
+	_, r.discarded = p.aggr.Counts()
+	r.tokens = p.T
 	if c.PerInstance {
-		tokens = T * started
+		r.tokens = p.T * started
 	}
-	want := tokens
-	if c.Ammo >= 0 && c.Ammo < want {
-		want = c.Ammo
+	r.want = r.tokens
+	if c.Ammo >= 0 && c.Ammo < r.want {
+		r.want = c.Ammo
 	}
-	if fired+discarded != want {
-		return fmt.Errorf("fired %d + discarded %d = %d, expected min(tokens %d, ammo %d) = %d (instances started %d, tokens per profile %d)",
-			fired, discarded, fired+discarded, tokens, c.Ammo, want, started, T)
+	if r.fired+r.discarded != r.want {
+		return r, fmt.Errorf("fired %d + discarded %d = %d, expected min(tokens %d, ammo %d) = %d (instances started %d, tokens per profile %d)",
+			r.fired, r.discarded, r.fired+r.discarded, r.tokens, c.Ammo, r.want, started, p.T)
 	}
-	if !c.Discard && discarded != 0 {
-		return fmt.Errorf("%d samples reported as discarded with discard_overflow off", discarded)
+	if !c.Discard && r.discarded != 0 {
+		return r, fmt.Errorf("%d samples reported as discarded with discard_overflow off", r.discarded)
 	}
-	if req, resp := int(m.Request.Get()), int(m.Response.Get()); req != fired || resp != fired {
-		return fmt.Errorf("request counter %d, response counter %d, requests actually fired %d", req, resp, fired)
-	}
-	acquired := 0
-	for _, it := range prov.Delivered() {
-		acquired++
+	return r, nil
+}
+
+// judgeItems: Acquire/Release pairing, no use after release, bound on unfired items, one shot at a time per gun.
+func (p *poolRun) judgeItems(started int, r *poolResult) error {
+	c := p.c
+	for _, it := range p.prov.Delivered() {
+		r.acquired++
 		if it.Acquired() != 1 {
 			return fmt.Errorf("harness: item %d delivered %d times", it.ID, it.Acquired())
 		}
@@ -405,20 +453,60 @@ func once(c Case, o *vf.Obs, classify bool) error {
 			return fmt.Errorf("ammo item %d was fired %d times", it.ID, it.Shots())
 		}
 	}
-	if n := prov.UnknownReleases(); n != 0 {
+	if n := p.prov.UnknownReleases(); n != 0 {
 		return fmt.Errorf("%d Release calls with something that was never acquired", n)
 	}
-	unfired := acquired - fired - discarded
+	r.unfired = r.acquired - r.fired - r.discarded
 	if c.PerInstance {
-		if unfired != 0 {
-			return fmt.Errorf("%d acquired ammo items went unfired with per-instance finite profiles (must be none)", unfired)
+		if r.unfired != 0 {
+			return fmt.Errorf("%d acquired ammo items went unfired with per-instance finite profiles (must be none)", r.unfired)
 		}
-	} else if unfired < 0 || unfired > max(0, started-1) {
-		return fmt.Errorf("%d acquired ammo items went unfired, at most instances-1 = %d may", unfired, max(0, started-1))
+	} else if r.unfired < 0 || r.unfired > max(0, started-1) {
+		return fmt.Errorf("%d acquired ammo items went unfired, at most instances-1 = %d may", r.unfired, max(0, started-1))
 	}
-	if guns.Overlaps != 0 {
-		return fmt.Errorf("%d overlapping Shoot calls on one gun", guns.Overlaps)
+	if p.guns.Overlaps != 0 {
+		return fmt.Errorf("%d overlapping Shoot calls on one gun", p.guns.Overlaps)
 	}
+	return nil
+}
+
+func once(c Case, o *vf.Obs, classify bool) error {
+	if c.Yield != "" {
+		setYield(c.Yield)
+		defer setYield("")
+	}
+	p, err := newPoolRun(c, "p", gunSetup{})
+	if err != nil {
+		return err
+	}
+	m := pand.Metrics()
+	eng := engine.New(pand.NopLog(), m, engine.Config{Pools: []engine.InstancePoolConfig{p.conf}})
+	var runErr error
+	ok, stacks := vf.Deadline(60*time.Second, func() { runErr = eng.Run(context.Background()) })
+	if !ok {
+		return fmt.Errorf("Engine.Run did not return within 60s\n%s", stacks)
+	}
+	if runErr != nil {
+		return fmt.Errorf("Engine.Run returned %v for a pool with finite profiles and no failing component", runErr)
+	}
+	eng.Wait()
+	started := int(m.InstanceStart.Get())
+	finished := int(m.InstanceFinish.Get())
+	if started != finished {
+		return fmt.Errorf("InstanceStart=%d but InstanceFinish=%d after the run", started, finished)
+	}
+	res, err := p.judgeCounts(started)
+	if err != nil {
+		return err
+	}
+	fired, discarded, tokens, want := res.fired, res.discarded, res.tokens, res.want
+	if req, resp := int(m.Request.Get()), int(m.Response.Get()); req != fired || resp != fired {
+		return fmt.Errorf("request counter %d, response counter %d, requests actually fired %d", req, resp, fired)
+	}
+	if err := p.judgeItems(started, &res); err != nil {
+		return err
+	}
+	unfired := res.unfired
 	if classify {
 		o.ClassIf(c.Ammo >= 0 && c.Ammo < tokens, "ammo_lt_tokens")
 		o.ClassIf(c.Ammo == tokens, "ammo_eq_tokens")
@@ -433,12 +521,15 @@ func once(c Case, o *vf.Obs, classify bool) error {
 		o.ClassIf(c.ViaConfig && c.PerInstance && c.Profile.Kind == "composite" && started >= 2, "per_instance_composite_via_config")
 		o.ClassIf(unfired > 0, "unfired_ammo")
 		o.ClassIf(started < c.Instances, "start_cut_short")
+		if c.Contended != "" {
+			contendedClasses(c, o, started)
+		}
 		if c.Shape != "" {
 			// measured, not assumed: the longest interval between the instant Next returned a token and that token's time
 			var ahead time.Duration
 			farTokens := 0
-			wrapMu.Lock()
-			for _, w := range wrapped {
+			p.wrapMu.Lock()
+			for _, w := range p.wrapped {
 				for _, n := range w.Log() {
 					if !n.OK {
 						continue
@@ -452,7 +543,7 @@ func once(c Case, o *vf.Obs, classify bool) error {
 					}
 				}
 			}
-			wrapMu.Unlock()
+			p.wrapMu.Unlock()
 			o.Class("shape_" + c.Shape)
 			o.ClassIf(ahead > time.Second, "token_handed_out_more_than_1s_ahead")
 			o.ClassIf(ahead > 2*time.Second, "token_handed_out_more_than_2s_ahead")
